@@ -49,6 +49,12 @@ def sizing_defect(spec, res):
     return True
 
 
+def sizing_sig(spec, res):
+    """identifies the failing allocate request itself (not the run it happened in)"""
+    c = res["failed_alloc"]
+    return "sizing-guard|%s|p=%r|m=%r|pos=%r|amount=%r|spread=%r|fee=%s|int=%s" % (res["guard"], c["price"], c["mult"], c["position"], c["amount"], c["spread"], spec.get("fee"), c["integer"])
+
+
 def val(h, name, series, i):
     if i < 0:
         return 0.0
@@ -210,7 +216,7 @@ def check_family(ctx, prop, kinds=None):
     for kind in kinds:
         use = fam if kind == "py" else fam[:: 4]
         ok = refused = 0
-        for spec, (status, viols, ntr) in zip(use, ctx.map(kind, "btmc.runcheck", "run_ledger_case", [(prop, s) for s in use], chunksize=4)):
+        for (_p, spec), (status, viols, ntr) in ctx.run(kind, "btmc.runcheck", "run_ledger_case", [(prop, s) for s in use], chunksize=4):
             ctx.add(transitions=1, traces_validated_against_impl=1, evaluations=1)
             if status == "refused":
                 refused += 1
@@ -235,7 +241,7 @@ def check_family(ctx, prop, kinds=None):
             nest = [s for s in fam if s["tree"] == "nested"]
             sc += [dict(s, integer=False, fee="propdec", spread=None) for s in nest[::4]]
         n_ok = 0
-        for spec, (status, viols, moved) in zip(sc, ctx.map("py", "btmc.runcheck", "run_scaled_case", sc, chunksize=2)):
+        for spec, (status, viols, moved) in ctx.run("py", "btmc.runcheck", "run_scaled_case", sc, chunksize=2):
             ctx.add(transitions=3, traces_validated_against_impl=3, evaluations=1)
             if status == "refused":
                 ctx.add(refused=1)
